@@ -69,7 +69,14 @@ func scenario(k int) {
 		}
 		scripts = append(scripts, ts)
 	}
-	label := fmt.Sprintf("%s http=%s udp=%s startComplete=%v seeder=%v", id, scripts[0], scripts[1], startComplete, withSeeder)
+	// class: the UDP tracker answers connect slowly while a seeder delivers the small torrent at once, so the
+	// download completes while the 'started' announce is still on its way
+	slowConnect := k%6 == 5
+	if slowConnect {
+		startComplete, withSeeder = false, true
+		scripts[1].Kind = "ok"
+	}
+	label := fmt.Sprintf("%s http=%s udp=%s startComplete=%v seeder=%v slowconnect=%v", id, scripts[0], scripts[1], startComplete, withSeeder, slowConnect)
 	run.CaseStart(label)
 	defer run.CaseEndDeferred(label)
 	dir := filepath.Join(run.Work, fmt.Sprintf("s%d", k))
@@ -133,6 +140,9 @@ func scenario(k int) {
 		return
 	}
 	defer ut.Close()
+	if slowConnect {
+		ut.ConnectDelay.Store(int64(600 * time.Millisecond))
+	}
 	s, _, err := sess.New(sess.Opts{Dir: dir, Storage: prov, Mutate: func(c *torrent.Config) {
 		c.TrackerMinAnnounceInterval = minAnnounce
 		c.TrackerStopTimeout = 500 * time.Millisecond
@@ -316,17 +326,30 @@ func scenario(k int) {
 				return
 			}
 			nCompleted, accepted := 0, false
+			sawOther, startedAccepted := false, 0
 			var lastPlain time.Time
 			var bound time.Duration
 			for j, rp := range in {
 				switch rp.a.Event {
 				case "started":
-					if j != 0 {
-						viol("started-repeated:"+proto, "run %d: a second 'started' announce (position %d)", ri, j)
+					// Repeating 'started' until the tracker has accepted one is what BEP 3 asks for, and the
+					// tracker cannot know whether its reply arrived (a reply lost to a client-side timeout is
+					// followed by another 'started' after the back-off). It is a defect once the client has
+					// moved on to another kind of announce, or when accepted 'started' announces keep coming.
+					if j != 0 && sawOther {
+						viol("started-repeated:"+proto, "run %d: a 'started' announce (position %d) after the client had already sent a later kind of announce to this tracker", ri, j)
+						return
+					}
+					if rp.accepted {
+						startedAccepted++
+					}
+					if startedAccepted >= 3 {
+						viol("started-repeated:"+proto, "run %d: %d 'started' announces answered successfully in one run", ri, startedAccepted)
 						return
 					}
 					lastPlain = time.Time{}
 				case "completed":
+					sawOther = true
 					nCompleted++
 					if nCompleted > 1 {
 						viol("completed-twice:"+proto, "run %d: 'completed' sent %d times", ri, nCompleted)
@@ -348,6 +371,7 @@ func scenario(k int) {
 					}
 					lastPlain = time.Time{}
 				case "":
+					sawOther = true
 					if !lastPlain.IsZero() {
 						gap := rp.a.At.Sub(lastPlain)
 						if gap < bound/2 && vx.CanaryWorstSince(w.start) < 100*time.Millisecond {
